@@ -649,6 +649,13 @@ find_value (const DBusString *str,
                   BUS_SET_OOM (error);
                   goto failed;
                 }
+
+              /* The backslash represented itself; the character after
+               * it is not escaped, so look at it again as an ordinary
+               * unquoted character (it may be a comma ending the value,
+               * an opening quote or another backslash). */
+              quote_char = '\0';
+              continue;
             }
 
           if (!_dbus_string_append_byte (value, *p))
